@@ -66,6 +66,12 @@ def ipv8_shaped(d: bytes) -> bool:
     return len(d) >= IPV8_PREFIX_LEN + 1 and d[0] == 0 and d[1] in IPV8_VERSIONS
 
 
+def verdicts(d: bytes) -> tuple:
+    """(utp, udp_tracker, dht, bt, ipv8) in one go."""
+    u, t, h = utp_shaped(d), tracker_shaped(d), dht_shaped(d)
+    return (u, t, h, u or t or h, ipv8_shaped(d))
+
+
 SHAPES = {"utp": utp_shaped, "udp_tracker": tracker_shaped, "dht": dht_shaped, "bt": bt_shaped, "ipv8": ipv8_shaped}
 
 
